@@ -358,3 +358,7 @@ META = {
     'technique': 'static analysis: exhaustive ordering enumeration of ownership / threshold predicates and fetch-window clamps, rounding-bound domain for the bin index, exactly-once path check',
     'design_ref': 'DESIGN.md section 5, C12',
 }
+
+
+from . import shared as _shared
+_shared.register('C12', 'C12')
